@@ -286,3 +286,16 @@ def write_replay(prop, subname, bucket, case, msg):
 
 def log(*a):
     print(*a, file=sys.stderr, flush=True)
+
+
+def quiet_logging():
+    """library log output (error mode 'log' without handler) must not flood stderr; handlers that
+    sub-checks attach to 'pyrtcm.rtcmreader' still see every record"""
+    import logging
+
+    lg = logging.getLogger("pyrtcm")
+    lg.addHandler(logging.NullHandler())
+    lg.propagate = False
+
+
+quiet_logging()
